@@ -36,6 +36,7 @@ Sixth round: C06.2 the accumulated demand of both generators grows by the demand
 Seventh round: C06.7 assignments are filed and looked up under the same key expression (subscript, .get and `in` forms alike), and an event of the watch batch is dispatched whenever its resource has a handler - nothing else decides.
 Eighth round: C06.5 the routine that schedules a partition hands its queue to the placement loop on every path (no fast path before it); C06.7 the pattern compiled for an assignment is the recorded pattern followed by '#' and ten digits.
 Ninth round: C06.2 every utilisation of the private generator is computed against self.reserved (the total reservation belongs to the merged queue).
+Tenth round: C06.7 every load of the allocations ends with an assignment table of its own, also the load that finds no allocation (F27; repaired in /repo); C06.2 the cap given to the Allocation constructor is what the last cap-setting call of the constructor stores (F28; repaired in /repo).
 Does NOT decide rank monotonicity and per-allocation order through the
 recursive re-scored merge (numeric, depends on the whole tree) - the larger
 half of the property.
@@ -935,6 +936,74 @@ def _every_event(ctx):
                               'dispatch of the events of a batch')
 
 
+def _constructor_cap(ctx, alloc):
+    """C06.2: the utilisation cap handed to the constructor is the cap of the
+    object.  The constructor calls the setter and then other methods of the
+    class; one that ends in the setter with a parameter of its own (update,
+    whose cap parameter defaults to None = no cap) silently replaces what
+    the constructor was given unless the value is passed on."""
+    init = alloc.methods.get('__init__')
+    setter = alloc.methods.get('set_max_utilization')
+    if init is None or setter is None:
+        return
+    params = init.params()
+
+    def cap_arg(call):
+        """The expression a call on self makes the cap, or None when the
+        call does not touch the cap."""
+        if not (isinstance(call.func, ast.Attribute) and
+                N.txt(call.func.value) == 'self'):
+            return None
+        name = call.func.attr
+        if name == setter.name:
+            return N.txt(call.args[0]) if call.args else 'None'
+        meth = alloc.methods.get(name)
+        if meth is None or meth is init:
+            return None
+        for inner in K.calls(meth.node):
+            if isinstance(inner.func, ast.Attribute) and \
+                    N.txt(inner.func.value) == 'self' and \
+                    inner.func.attr == setter.name and inner.args and \
+                    isinstance(inner.args[0], ast.Name) and \
+                    inner.args[0].id in meth.params():
+                q = inner.args[0].id
+                idx = meth.params().index(q) - 1        # without self
+                for kw in call.keywords:
+                    if kw.arg == q:
+                        return N.txt(kw.value)
+                if idx < len(call.args):
+                    return N.txt(call.args[idx])
+                defaults = meth.node.args.defaults
+                names = [a.arg for a in meth.node.args.args]
+                pos = names.index(q) - (len(names) - len(defaults))
+                return 'default:%s' % (N.txt(defaults[pos])
+                                       if pos >= 0 else '?')
+        return None
+    given = None
+    source = None
+    last = None
+    stmts = sorted((sub for sub in K.walk_no_nested(init.node)
+                    if isinstance(sub, ast.Call)),
+                   key=lambda c: (c.lineno, c.col_offset))
+    for call in stmts:
+        got = cap_arg(call)
+        if got is None:
+            continue
+        if got in params and given is None:
+            given = got
+        source, last = got, call
+    if given is None:
+        return          # the constructor takes no cap: nothing to decide
+    ctx.ob('C06.2', init, last, source == given,
+           'the cap given to the constructor (%s) is what the last call of '
+           'the constructor that sets the cap stores' % given
+           if source == given else
+           'the cap given to the constructor (%s) is replaced by %s: %s is '
+           'the last call of the constructor that sets the cap' % (
+               given, source, N.txt(last)[:60]),
+           construct='constructor cap kept')
+
+
 def _given_value_kept(ctx, alloc):
     """C06.2: a configured value is taken whenever one is given - the
     setters fall back to the default under `is None` only, so that a legal
@@ -1113,6 +1182,19 @@ def _assignments_rebuilt(ctx):
                'assignments are added to a table created by this load '
                '(entries of an earlier load do not survive in front of '
                'them)', construct='assignment table rebuilt')
+    # ... and a load that finds nothing to file leaves an empty table, not
+    # the previous one: when the last allocation is deleted its patterns
+    # must stop matching (the instances fall back to the default
+    # assignment)
+    stale = K.find_path(graph.entry, [graph.exit],
+                        cut_node=lambda n: n in fresh, follow_exc=False)
+    ctx.ob('C06.7', func, None, stale is None,
+           'every load of the allocations ends with an assignment table of '
+           'its own' if stale is None else
+           'a load of the allocations can end with the assignment table of '
+           'the previous load still in force',
+           path=K.describe(stale) if stale else None,
+           construct='assignment table of the previous load dropped')
 
 
 def check(ctx):
@@ -1122,6 +1204,7 @@ def check(ctx):
     _rank(ctx, priv)
     _parameters_applied(ctx, alloc)
     _given_value_kept(ctx, alloc)
+    _constructor_cap(ctx, alloc)
     _reload_order(ctx)
     _cumulative(ctx, priv, merged)
     _own_reservation(ctx, priv, merged)
@@ -1147,9 +1230,21 @@ _L = 'lib/python/treadmill/scheduler/loader.py'
 
 MUTANTS = [
     ('assignments-not-reset', [(_L, """        self.assignments = collections.defaultdict(list)
-        for obj in data:
-""", """        for obj in data:
+        if not data:
+""", """        if not data:
 """)], 'C06.7'),
+    ('revert-F27-assignments-kept-when-no-allocation-left', [(_L, """        self.assignments = collections.defaultdict(list)
+        if not data:
+            return
+
+""", """        if not data:
+            return
+
+        self.assignments = collections.defaultdict(list)
+""")], 'C06.7'),
+    ('revert-F28-constructor-cap-dropped', [(_S, """        self.update(reserved, rank, 0, max_utilization)
+""", """        self.update(reserved, rank, 0)
+""")], 'C06.2'),
     ('key-priority-ascending', [(_S, """            return (-app.priority, 0 if app.server else 1,
 """, """            return (app.priority, 0 if app.server else 1,
 """)], 'C06.1'),
